@@ -3,7 +3,8 @@
 
   Model: `Model/PoolCS.lean` — the worker pool whose job is `ChunkStorage.StoreChunk`
   (`markProcessed` → `HasChunk` → `StoreChunk`, un-mark on a failed store), jobs carry chunk IDs
-  with duplicates, store outcomes are chosen by the environment at every call.
+  with duplicates, store outcomes are chosen by the environment at every call, the parent context can
+  be cancelled at every step.
   `cache` uses `Copy` (HasChunk → GetChunk → StoreChunk per ID, no shared marks): the generic pool
   of C07 with atomic jobs.  Together with the store contract (C08 for local stores, C03) and C02
   (`make_index_exact`: the index of a fresh `ChunkStream` is `chunkAll` with IDs `H(slice)`), a
@@ -39,8 +40,26 @@ theorem success_all_fed (ids : List Nat) (n : Nat) (s : PoolCS.St)
 
 /-- the pool cannot get stuck (no lost worker, no blocked feeder) -/
 theorem no_deadlock (ids : List Nat) (n : Nat) (s : PoolCS.St) (hn : 1 ≤ n)
-    (h : PoolCS.Reachable (PoolCS.St.init ids n) s) (hr : s.result = none) : ∃ e s', PoolCS.step s e = some s' :=
+    (h : PoolCS.Reachable (PoolCS.St.init ids n) s) (hr : s.result = none) :
+    ∃ e s', e ≠ PoolCS.Ev.parentCancel ∧ PoolCS.step s e = some s' :=
   PoolCS.no_deadlock ids n s hn h hr
+
+/-- the machine includes a cancellation of the parent context at any moment (the theorems above hold
+    under it: a run cut short by it ends in `Interrupted`, never in success); without a cancellation
+    and without a failing store call the command does succeed -/
+theorem no_cancel_no_fault_success (ids : List Nat) (n : Nat) (s : PoolCS.St) (r : PoolCS.Res)
+    (h : PoolCS.Reachable (PoolCS.St.init ids n) s) (hr : s.result = some r)
+    (hc : s.parentCancelled = false) (he : s.groupErr = false) : r = .ok :=
+  PoolCS.no_cancel_no_fault_success ids n s r h hr hc he
+
+/-- **regenerated obligation**: `ChopFile`, `ChunkStream` and `Copy` mark the interruption in their
+    `ctx.Done()` arm and report it after `g.Wait()` — the shape `Model/PoolCS.lean` has built in -/
+theorem gen_pool_shapes :
+    (Pool.PoolShape.mk Gen.poolShape_ChopFile.1 Gen.poolShape_ChopFile.2).ok = true ∧
+    (Pool.PoolShape.mk Gen.poolShape_ChunkStream.1 Gen.poolShape_ChunkStream.2).ok = true ∧
+    (Pool.PoolShape.mk Gen.poolShape_Copy.1 Gen.poolShape_Copy.2).ok = true ∧
+    Gen.site_pool_ChopFile_found = true ∧ Gen.site_pool_ChunkStream_found = true ∧
+    Gen.site_pool_Copy_found = true ∧ Gen.site_pool_waitOrInterrupted_found = true := by decide
 
 /-- `Copy` (cache): atomic jobs — success means every job completed -/
 theorem copy_success_all_done (sh : Pool.PoolShape) (jobs n : Nat) (s : Pool.St) (r : Pool.Res)
